@@ -681,7 +681,7 @@ def gen_graph(rng, idx):
             pool = both or pool
         i = rng.choice(pool)
         f = rng.choice(REQUIRED[classes[i]])
-        nodes[i]["fields"].pop(f, None)
+        removed_value = nodes[i]["fields"].pop(f, None)
         removed = [i, f]
     if mode == "submit":
         ops = [{"op": "submit", "root": 0, "init": init[0]}]
@@ -734,6 +734,15 @@ def gen_graph(rng, idx):
         if rng.random() < 0.3:
             j = 0 if rng.random() < 0.5 else rng.randrange(n)
             case["ops"] = [{"op": "instance", "root": j}] + case["ops"]
+            if j == 0 and init.get(0) and mode in ("submit", "resubmit") and rng.random() < 0.7:
+                # the task is complete when it is instantiated (and sealed); what is missing is on an init task,
+                # which only joins the graph at submit(init_tasks=...)
+                if removed is not None and removed_value is not None:
+                    nodes[removed[0]]["fields"][removed[1]] = removed_value
+                i = rng.choice(init[0])
+                f = rng.choice(REQUIRED[classes[i]])
+                nodes[i]["fields"].pop(f, None)
+                case["removed"] = [i, f]
     return case
 
 
@@ -1119,7 +1128,13 @@ def run(c: Check):
               "value removed at a random node in 70 %, real submit (or validate() for cyclic graphs, or two submits "
               "sharing nodes, or a retry history: rejected submit, the missing value supplied, second submit, or a pipeline history: 2-3 tasks, the upstream ones go through their own submit - "
               "accepted or rejected - and are then assigned, directly / in a list / dict / list of lists / inside a "
-              "held configuration, to the downstream ones, which are submitted in turn). Non-trivial = assignment "
+              "held configuration, to the downstream ones, which are submitted in turn); in 30 % of the acyclic histories "
+              "one or more configurations (with everything below them) are saved and LOADED back - from_state_dict, "
+              "a required field stripped from the saved definition when the case removes it - before they are used, "
+              "and in 30 % instance() is called on the task or on a configuration before the submits (the missing "
+              "value then preferably on an init task). 22 % of the configuration-free assignment cases carry a checker "
+              "(Choices around the coerced candidate / default, or a user-defined one), 3 % are declared with a bare "
+              "field(); Union-typed parameters are exercised by directed cases (oracle only). Non-trivial = assignment "
               "with a container or configuration type; graph with >= 3 reachable nodes; distinct by canonical case")
     c.build()
     c.props()
@@ -1239,8 +1254,11 @@ def run(c: Check):
         "__validate__ hooks and Argument.checker are outside the model (the generated classes have none)",
         "what follows validation inside submit (seal, identifier, dependencies) is assumed not to raise for the "
         "acyclic graphs generated; cyclic graphs are only given to validate() because submit raises RecursionError on them",
-        "sealing by an accepted submit is not part of the session model (C14's subject): the generated histories never "
-        "assign to an object that an accepted submit has reached (retry histories assign below a REJECTED submit only)",
+        "sealing: an accepted submit and instance() seal every configuration the validation walk went through, loaded "
+        "configurations are sealed from the start (observed: the sealed flag of the object of each call, and later "
+        "assignments being refused); what the sealer generates (paths) is outside the model",
+        "Union-typed parameters are outside the modelled type expressions: the directed cases are judged by the "
+        "oracle only (no correspondence)",
         "the order of the steps of submit (job created, validation, registration) is the model's; the harness observes "
         "the scheduler registry, the job flag and the init tasks after every call",
         "declared defaults are generated for configuration-free types only (a configuration default is cloned by "
